@@ -4,6 +4,7 @@ import PercevalModel.Model.C12Solve
 import PercevalModel.Model.C12Block
 import PercevalModel.Model.C12Glue
 import PercevalModel.Model.C12Other
+import PercevalModel.Model.C12Inst
 
 /-!
   C12 driver.  Requests (one JSON object per line):
@@ -25,6 +26,15 @@ import PercevalModel.Model.C12Other
     `{"res":[q…]}` or `{"none":true}`: the model of `solve.py: solve` (`Model/C12Solve.lean`) on the function
     `f(x) = |b + Σ aᵢ·xᵢ|` over ℚ (exact), the numerical minimiser being the oracle that returns `opt` (the point the
     real minimiser was observed to return; it is not consulted when every parameter is imposed).  Exact replies.
+  * `{"op":"inst","cells":[{"free":b,"val":q|null,"lo":q|null,"hi":q|null,"per":b},…],"res":[q…]}` →
+    `{"bounds":[null|[lo|null,hi|null],…],"out":null|[{"free":b,"val":q|null},…]}`: the parameter table of a block
+    template (`get_parameters(all_params=True)` order), the `bounds` list `decompose_triangle` builds from it and the
+    table after `for i, r in enumerate(res): get_parameters()[0].fix_value(res[i])` (`Model/C12Inst.lean`; `null` =
+    the loop raises).  A periodic cell with `hi ≤ lo` is rejected (outside the model).
+  * `{"op":"optargs","x0":[q…],"bs":[n…],"cs":[q|null,…]}` → `{"x0":[q…],"bs":[n…]}`: what the recursion of `solve`
+    has made of `x0` and of `bounds` (given as labels) when it reaches the minimiser.
+  * `{"op":"matclass","cls":"numeric"|"symdef"|"symfree","repaired":b}` → `{"passes":b,"readable":b}`: does the object
+    pass the "non symbolic" test of `Circuit.decomposition`, and can `add_phases` read the matrix the elimination runs on.
   * `{"op":"leave","m":N,"U":rows,"prec":"p/q","ignore":b}` → `{"zeroed":[[n,j],…],"other":[…]}`: the entries of the
     array shared by all attempts of the retry loop that one attempt of the PINNED code started on `U` changed
     (`inPlace`: `u[n,j] = 0` of the leading identity skips; every other entry is left as it is).  The main model
@@ -330,6 +340,50 @@ def handleGlue (j : Json) : Except String Json := do
   | .none => return Json.mkObj [("outcome", "None")]
   | .circuit k => return Json.mkObj [("outcome", "circuit"), ("k", toJson k)]
 
+def optRatOf (j : Json) (k : String) : Except String (Option ℚ) := do
+  let v ← j.getObjVal? k
+  if v.isNull then pure none else (ratOfJson v).map some
+
+def optRatToJson : Option ℚ → Json
+  | none => Json.null
+  | some q => ratToJson q
+
+def handleInst (j : Json) : Except String Json := do
+  let cells ← (← arrOf j "cells").toList.mapM fun (c : Json) => do
+    let p : Inst.Par := { free := ← boolOf c "free", val := ← optRatOf c "val", lo := ← optRatOf c "lo",
+                          hi := ← optRatOf c "hi", periodic := ← boolOf c "per" }
+    match p.periodic, p.lo, p.hi with
+    | true, some l, some h => if h ≤ l then throw "periodic parameter with max <= min: outside the model"
+    | _, _, _ => pure ()
+    pure p
+  let res ← ratListOf j "res"
+  let bounds := (Inst.boundsOf cells).map fun
+    | none => Json.null
+    | some (l, h) => Json.arr #[optRatToJson l, optRatToJson h]
+  let out := match Inst.instantiate cells res with
+    | none => Json.null
+    | some ps => Json.arr (ps.map fun p => Json.mkObj [("free", toJson p.free), ("val", optRatToJson p.val)]).toArray
+  return Json.mkObj [("bounds", Json.arr bounds.toArray), ("out", out)]
+
+def handleOptArgs (j : Json) : Except String Json := do
+  let x0 ← ratListOf j "x0"
+  let bs ← natList (← j.getObjVal? "bs")
+  let cs ← (← arrOf j "cs").toList.mapM fun (c : Json) =>
+    if c.isNull then pure (none : Option ℚ) else (ratOfJson c).map some
+  if x0.length ≠ cs.length ∨ bs.length ≠ cs.length then throw "x0, bs and cs must have the same length"
+  let r := Inst.optArgs x0 bs cs
+  return Json.mkObj [("x0", Json.arr (r.1.map ratToJson).toArray), ("bs", toJson r.2)]
+
+def handleMatClass (j : Json) : Except String Json := do
+  let c ← match (← strOf j "cls") with
+    | "numeric" => pure Inst.MatClass.numeric
+    | "symdef" => pure Inst.MatClass.symbolicDefined
+    | "symfree" => pure Inst.MatClass.symbolicFree
+    | _ => throw "unknown matrix class"
+  let w := Inst.workingClass (← boolOf j "repaired") c
+  return Json.mkObj [("passes", toJson (Inst.passesSymbolicTest c)),
+    ("readable", toJson (Inst.phaseLayerReadable w))]
+
 def handle (j : Json) : Json :=
   let r : Except String Json := do
     let op ← strOf j "op"
@@ -339,6 +393,9 @@ def handle (j : Json) : Json :=
     else if op == "leave" then handleLeave j
     else if op == "blockmat" then handleBlock j
     else if op == "glue" then handleGlue j
+    else if op == "inst" then handleInst j
+    else if op == "optargs" then handleOptArgs j
+    else if op == "matclass" then handleMatClass j
     else throw "unknown op"
   match r with
   | .ok x => x
